@@ -3,10 +3,10 @@ package main
 import (
 	"context"
 	"encoding/json"
-	"go/ast"
-	"go/types"
 	"flag"
 	"fmt"
+	"go/ast"
+	"go/types"
 	"os"
 	"path/filepath"
 	"sort"
@@ -19,6 +19,7 @@ type PropUnit struct {
 	Pkg       string   `json:"pkg"`
 	Func      string   `json:"func"`
 	Groups    []string `json:"groups,omitempty"`    // claimed obligation groups (default: all)
+	Claim     []string `json:"claim,omitempty"`     // obligation-name substrings claimed in addition to the groups
 	Unclaimed []string `json:"unclaimed,omitempty"` // obligation-name substrings not claimed (with reason in Why)
 	Why       string   `json:"why,omitempty"`
 	MinObls   int      `json:"min_obligations,omitempty"`
@@ -415,7 +416,7 @@ func runCheck(id, tier string, seed int) int {
 		results = append(results, res)
 		unitOf[res] = pu
 		for _, o := range res.Obls {
-			if o.Group != "canary" && (!groupClaimed(pu, o.Group) || matchesAny(o.Name, pu.Unclaimed)) {
+			if o.Group != "canary" && (!isClaimed(pu, o)) {
 				o.Result, o.Solver = "skipped", "unclaimed"
 				continue
 			}
@@ -499,7 +500,7 @@ func runCheck(id, tier string, seed int) int {
 				}
 				continue
 			}
-			if !groupClaimed(pu, o.Group) || matchesAny(o.Name, pu.Unclaimed) {
+			if !isClaimed(pu, o) {
 				fe.Unclaimed++
 				unclaimedN++
 				if matchesAny(o.Name, pu.Unclaimed) {
@@ -609,6 +610,17 @@ func uniq(ss []string) []string {
 		}
 	}
 	return out
+}
+
+// isClaimed: the obligation is claimed by the unit (group listed, or name matches a `claim` pattern) and not excluded.
+func isClaimed(pu PropUnit, o *Obligation) bool {
+	if matchesAny(o.Name, pu.Unclaimed) {
+		return false
+	}
+	if len(pu.Claim) > 0 && matchesAny(o.Name, pu.Claim) {
+		return true
+	}
+	return groupClaimed(pu, o.Group)
 }
 
 func groupClaimed(pu PropUnit, g string) bool {
